@@ -581,6 +581,24 @@ func (fr *frame) rangeInit(x *ssa.Range, st *bstate) {
 			fr.rangeInfo = map[*ssa.Range][2]string{}
 		}
 		fr.rangeInfo[x] = [2]string{key, total}
+		// ghost: the set of keys yielded so far, and the map's key set when the iteration started
+		if _, dk, _ := f.mapKeys(mt); dk != "" {
+			ks := sortOfType(mt.Key())
+			vkey := fmt.Sprintf("G.range.%d.%d.vis", fr.id, f.rangeN)
+			f.hs.regKey(vkey, "(Array "+ks+" Bool)")
+			f.hs.final[vkey] = true
+			st.heap = f.hs.write(st.heap, vkey, "((as const (Array "+ks+" Bool)) false)")
+			m := fr.val(x.X)
+			dom0 := f.c.define("range.dom0", "(Array "+ks+" Bool)", app("select", f.hs.read(st.heap, dk), m.Tm))
+			if fr.rangeVis == nil {
+				fr.rangeVis = map[*ssa.Range][3]string{}
+			}
+			fr.rangeVis[x] = [3]string{vkey, dom0, ks}
+			if fr.top {
+				f.rangeVisKeys[f.rangeN] = vkey
+				f.rangeDom0[f.rangeN] = dom0
+			}
+		}
 	}
 	f.exact["Range"]++
 }
@@ -614,6 +632,20 @@ func (fr *frame) next(x *ssa.Next, st *bstate) {
 			// an empty or nil map yields nothing
 			if dk != "" {
 				f.assume(st, implies(eq(m.Tm, "0"), not(ok)), "range over nil map")
+			}
+			// visited set: a key is yielded at most once; when the iteration ends every key that was in the
+			// map at its start and still is has been yielded (entries added meanwhile may be skipped)
+			if vi, has := fr.rangeVis[rg]; has && dk != "" && kv.K != KUnit && kv.Tm != "" && kindOf(tup.At(1).Type()) != KUnit {
+				vis := f.hs.read(st.heap, vi[0])
+				f.assume(st, implies(ok, not(app("select", vis, kv.Tm))), "range yields a key at most once")
+				st.heap = f.hs.write(st.heap, vi[0], f.c.define("range.vis", "(Array "+vi[2]+" Bool)", ite(ok, app("store", vis, kv.Tm, "true"), vis)))
+			}
+			if vi, has := fr.rangeVis[rg]; has && dk != "" {
+				vis := f.hs.read(st.heap, vi[0])
+				f.qn++
+				q := fmt.Sprintf("rv%d.k", f.qn)
+				domNow := app("select", f.hs.read(st.heap, dk), m.Tm)
+				f.assume(st, implies(not(ok), fmt.Sprintf("(forall ((%s %s)) (=> (and (select %s %s) (select %s %s)) (select %s %s)))", q, vi[2], vi[1], q, domNow, q, vis, q)), "a finished map iteration has yielded every key that stayed in the map")
 			}
 		}
 	}
